@@ -61,6 +61,16 @@ func runInterleave(r *run) error {
 		t = append(t, nodeSpec{Path: "m/new.bin", Type: "f", Data: g.bytes(bigSize / 3), Mode: 0o644, Mtime: 1_500_000_000})
 		trees = append(trees, tree{"mix", t, p, false})
 	}
+	{ // many stale files: every request carries a checksum list while earlier answers carry data
+		var t, p treeSpec
+		for i := 0; i < 12; i++ {
+			d := g.bytes(bigSize / 4)
+			e, _, _ := editData(g, d, 2, 300)
+			t = append(t, nodeSpec{Path: fmt.Sprintf("s/f%02d.bin", i), Type: "f", Data: d, Mode: 0o644, Mtime: 1_500_000_000})
+			p = append(p, nodeSpec{Path: fmt.Sprintf("s/f%02d.bin", i), Type: "f", Data: e, Mode: 0o644, Mtime: 1_400_000_000})
+		}
+		trees = append(trees, tree{"stale", t, p, false})
+	}
 	for i := range trees {
 		if err := trees[i].src.materialise(filepath.Join(base, "src-"+trees[i].name)); err != nil {
 			return err
